@@ -314,6 +314,48 @@ Fixpoint rrun (c : cfg) (s : state) (ops : list rop) : state * list outcome :=
               let (s2, outs) := rrun c s1 r in (s2, out :: outs)
   end.
 
+(* ---------------- several reporters on one registry ---------------- *)
+(* The registry (vectors, children) is shared; every reporter has its own three
+   caches.  Handles and the callback log are numbered globally (the reporters
+   are built from the same options).  [XSwitch r] makes reporter r the one the
+   following operations are called on. *)
+Record rcaches := RC { rc_c : list (mid * nat); rc_g : list (mid * nat); rc_t : list (mid * tvec) }.
+
+Definition get_caches (s : state) : rcaches := RC (counters s) (gauges s) (timers s).
+Definition set_caches (s : state) (r : rcaches) : state :=
+  St (vecs s) (sers s) (rc_c r) (rc_g r) (rc_t r) (handles s) (cblog s).
+
+Inductive xop := XSwitch (r : nat) | XOp (o : rop).
+
+Record xstate := XS { xs : state; xcur : nat; xothers : list rcaches }.
+
+Definition xinit (pre : list vec) : xstate := XS (init pre) 0 [].
+
+Fixpoint put {A} (d : A) (i : nat) (x : A) (l : list A) : list A :=
+  match i, l with
+  | O, [] => [x]
+  | O, _ :: r => x :: r
+  | S j, [] => d :: put d j x []
+  | S j, y :: r => y :: put d j x r
+  end.
+
+Definition xstep (c : cfg) (t : xstate) (o : xop) : xstate * list outcome :=
+  match o with
+  | XSwitch r =>
+      if Nat.eqb r (xcur t) then (t, [])
+      else
+        let saved := put (RC [] [] []) (xcur t) (get_caches (xs t)) (xothers t) in
+        (XS (set_caches (xs t) (nth r saved (RC [] [] []))) r saved, [])
+  | XOp o => let (s1, out) := rstep c (xs t) o in (XS s1 (xcur t) (xothers t), [out])
+  end.
+
+Fixpoint xrun (c : cfg) (t : xstate) (ops : list xop) : xstate * list outcome :=
+  match ops with
+  | [] => (t, [])
+  | o :: r => let (t1, o1) := xstep c t o in
+              let (t2, o2) := xrun c t1 r in (t2, o1 ++ o2)
+  end.
+
 (* ---------------- the scope side (tally objects feeding the reporter) ---------------- *)
 (* [secs]: the bounds of [uppers k spec] in seconds as float64 bits, in order
    (for value histograms the bounds themselves): float64(d)/float64(time.Second)
